@@ -113,6 +113,59 @@ def gen_values(rng, signed, n, f, count, nonfinite=True):
     return keep
 
 
+NARROW = {"float32": ("<f", "<I", 32), "float16": ("<e", "<H", 16)}
+
+
+def narrow_values(rng, signed, n, f, count, dtype):
+    """Values exactly representable in float32 / float16 (returned as the bit patterns of the equal
+    doubles): the double stream rounded to the narrow type, plus the narrow type's own neighbours of both
+    ends of the range, of the rounded upper bound and of its largest finite values."""
+    ffmt, ifmt, bits = NARROW[dtype]
+
+    def rnd(x):
+        try:
+            y = struct.unpack(ffmt, struct.pack(ffmt, x))[0]
+        except (OverflowError, struct.error):
+            return None
+        return y if y == y and y not in (INF, -INF) else None
+
+    def neigh(y, k=2):
+        pat = struct.unpack(ifmt, struct.pack(ffmt, y))[0]
+        out = []
+        for d in range(-k, k + 1):
+            q = pat + d
+            if 0 <= q < (1 << bits):
+                z = struct.unpack(ffmt, struct.pack(ifmt, q))[0]
+                if z == z and z not in (INF, -INF):
+                    out.append(z)
+        return out
+    lo, hi = bounds(signed, n)
+    must = []
+    for B in (lo - 1, lo, lo + 1, -1, 0, 1, hi - 1, hi, hi + 1, 2 * (hi + 1), 2 * lo - 1, 1 << 31, 1 << 32, 1 << 15,
+              1 << 16, 1 << 63, 1 << 64):
+        for d in (0, Fraction(1, 2), Fraction(-1, 2)):
+            x = tofloat((B + d) / pow2(f))
+            y = rnd(x) if x is not None else None
+            if y is not None:
+                must += neigh(y)
+    top = struct.unpack(ffmt, struct.pack(ifmt, (0x7f7fffff if bits == 32 else 0x7bff)))[0]
+    must += [top, -top, 0.0, -0.0] + neigh(top)[:2] + [v for v in (rnd(1e30), rnd(-1e30), rnd(3e38), rnd(65504.0),
+                                                               rnd(1e-40), rnd(6e-8)) if v is not None]
+    rndm = [rnd(b2f(b)) for b in gen_values(rng, signed, n, f, count, nonfinite=False)]
+    seen, out = set(), []
+    for y in must + [v for v in rndm if v is not None]:
+        b = f2b(y)
+        if b not in seen:
+            seen.add(b)
+            out.append(b)
+    head = out[:len(must)]
+    rng.shuffle(head)
+    keep = head[:max(2 * count // 3, 1)] + out[len(must):]
+    keep = keep[:count]
+    rng.shuffle(keep)
+    return keep
+
+
 SHAPES = [((), "c"), ((), "pyscalar"), ((), "npscalar"), ((0,), "c"), ((1,), "c"), ((7,), "c"), ((7,), "strided"),
           ((3, 4), "c"), ((3, 4), "t"), ((3, 4), "f"), ((2, 3, 2), "c"), ((2, 3, 2), "t"), ((5, 1), "c"),
           ((1, 6), "strided"), ((2, 0, 3), "c"), ((2, 2, 2, 2), "f")]
@@ -188,6 +241,19 @@ def gen_groups(rng, tier):
         if n >= 2:
             groups.append(dict(kind="back", signed=s, n_bits=n, n_frac=f,
                                vs=gen_ints(rng, s, n, max(per // 3, 40)), nomodel=nomodel(k)))
+    # --- float32 / float16 input arrays: implementation and oracle only (the Coq model is binary64)
+    for dtype in ("float32", "float16"):
+        for s in (True, False):
+            for n in NP_BITS:
+                fl = sorted(set([-4, 0, 3, n // 2, n - (1 if s else 0), 15, 70] +
+                                ([rng.choice(fracs_all) for _ in range(6)] if thorough else [rng.choice(fracs_all)])))
+                for f in fl:
+                    xs = narrow_values(rng, s, n, f, 400 if thorough else 90, dtype)
+                    for shape, layout, part in split_arrays(rng, xs):
+                        if layout == "pyscalar":
+                            layout = "npscalar"
+                        groups.append(dict(kind="np", signed=s, n_bits=n, n_frac=f, xs=part, shape=shape, layout=layout,
+                                           dtype=dtype, nomodel=True))
     if thorough:
         # exhaustive finite sub-domains: every value of every 8-bit format (all n_frac, model and oracle) and
         # of the 16-bit formats (oracle), through the scalar way back and through the array converter
@@ -250,11 +316,18 @@ def gen_groups(rng, tier):
 
 
 # ------------------------------------------------------------------ independent oracle (exact rationals)
-def in_domain(x, f):
-    """The property's quantifier: a finite float whose scaled value is still a finite float."""
-    if x != x or x in (INF, -INF) or f > 1023:
+# (exponent of the infinities, precision) of the float types an input array may have
+FLOAT_TYPES = {"float64": (1024, 53), "float32": (128, 24), "float16": (16, 11)}
+
+
+def in_domain(x, f, dtype="float64"):
+    """The property's quantifier: a finite float whose scaled value is still a finite float -- of the
+    float type the conversion computes in (the array's own type: numpy scales a float32 / float16 array
+    in that precision; 2.0**n_frac itself must be finite there)."""
+    emax, prec = FLOAT_TYPES[dtype]
+    if x != x or x in (INF, -INF) or f >= emax:
         return False
-    return abs(Fraction(x) * pow2(f)) < LIMIT
+    return abs(Fraction(x) * pow2(f)) < Fraction(2) ** emax - Fraction(2) ** (emax - prec - 1)
 
 
 def expected_fp(signed, n, f, x):
@@ -380,16 +453,24 @@ def oracle(chk, g, out):
         if arr["shape"] != list(g["shape"]) or len(arr["vals"]) != len(g["xs"]):
             fail("numpy:shape", "input shape %r, output shape %r" % (g["shape"], arr["shape"]))
             return
+        dt = g.get("dtype", "float64")
         for i, (b, o, sc) in enumerate(zip(g["xs"], arr["vals"], scal)):
             x = b2f(b)
-            if not in_domain(x, f):
+            if not in_domain(x, f, dt):
                 continue
             r = judge_fp(s, n, f, x, o, "numpy")
             if o != sc or r:
                 fail("numpy:disagrees-scalar" if o != sc else r[0],
-                     "element %d of shape %r (%s), x = %s (%r): array converter gives %r, scalar float_to_fp gives %r%s"
-                     % (i, g["shape"], g["layout"], x.hex(), x, o, sc, "; " + r[1] if r else ""),
+                     "element %d of %s array of shape %r (%s), x = %s (%r): array converter gives %r, scalar float_to_fp gives %r%s"
+                     % (i, dt, g["shape"], g["layout"], x.hex(), x, o, sc, "; " + r[1] if r else ""),
                      index=i, x=x.hex(), observed=[o, sc], expected=expected_fp(s, n, f, x))
+        pairs = sorted((Fraction(b2f(b)), o, b2f(b)) for b, o in zip(g["xs"], arr["vals"])
+                       if in_domain(b2f(b), f, dt))
+        for (xa, oa, a), (xb, ob, b_) in zip(pairs, pairs[1:]):
+            if oa > ob:
+                fail("numpy:not-monotone", "%s array: x = %s gives %d but the larger x' = %s gives %d"
+                     % (dt, a.hex(), oa, b_.hex(), ob), x=a.hex(), x2=b_.hex(), observed=[oa, ob])
+                break
     elif kind == "npback":
         arr, scal = out["array"], out["scalar"]
         if not isinstance(arr, dict):
@@ -453,8 +534,15 @@ HEADER = ("From Coq Require Import ZArith List Bool. Import ListNotations. Open 
           "Require Import Rig.Model.Base Rig.Model.FixFloat.\n")
 
 
+def inputs_of(g):
+    for k in ("xs", "vs", "wv"):
+        if k in g:
+            return g[k]
+    return []
+
+
 def size(g):
-    return len(g.get("xs", g.get("vs", g.get("wv", []))))
+    return len(inputs_of(g))
 
 
 def classify(chk, g, out):
@@ -465,9 +553,12 @@ def classify(chk, g, out):
     chk.count("n_bits:%d" % n, size(g))
     if kind in ("fp", "np", "fix"):
         lo, hi = bounds(s, max(n, 1))
+        dt = g.get("dtype", "float64")
+        if dt != "float64":
+            kind = "np-" + dt
         for b in g["xs"]:
             x = b2f(b)
-            if not in_domain(x, f):
+            if not in_domain(x, f, dt):
                 cls, nt = "outside-domain", False
             else:
                 y = Fraction(x) * pow2(f)
@@ -486,7 +577,7 @@ def classify(chk, g, out):
                     chk.count("input:subnormal")
             chk.count(kind + ":" + cls)
             chk.note_case([kind, s, n, f, b], nt)
-        if kind == "np":
+        if g["kind"] == "np":
             chk.count("np-shape:%s/%s" % ("x".join(map(str, g["shape"])) or "0-d", g["layout"]))
     elif kind in ("back", "npback"):
         for v in g["vs"]:
@@ -506,7 +597,11 @@ def run(chk, args):
         "observation, not verified (per-element model; out-of-range cast modelled as wrapping modulo 2^N)",
         "CPython float(int), int(float), float * float, 2.0 ** int are correctly rounded IEEE-754 operations"]
     chk.assumptions += [
-        "inputs are Python floats / float64 arrays (float32 or integer input arrays are not modelled)",
+        "the Coq model and the theorems are about binary64 (Python floats, float64 arrays); float32 and float16 input "
+        "arrays are covered by the implementation-vs-oracle stream only (array result = exact specification and = "
+        "scalar float_to_fp of each element's exact value), with the domain read in the array's own precision: "
+        "2.0**n_frac and the scaled element must be finite in that type (e.g. a float16 array with n_frac >= 16 is "
+        "outside the domain: numpy computes 2.0**16 as inf there). Integer or longdouble input arrays are not covered",
         "the property's domain: x finite and 2^n_frac * x a finite double; n_frac within the exponent range of a "
         "double (-1074 <= n_frac <= 1023; generator: -4..70 plus a few extreme scales); the oracle judges formats of "
         "8..64 bits (other widths are compared with the model only)",
@@ -542,7 +637,7 @@ def run(chk, args):
             g = groups[k]
             chk.sample(dict(converter=desc(g), shape=g.get("shape"), layout=g.get("layout"),
                             inputs=[(b2f(b).hex() if g["kind"] in ("fp", "np", "fix") else b)
-                                    for b in (g.get("xs") or g.get("vs") or g.get("wv"))[:6]],
+                                    for b in inputs_of(g)[:6]],
                             implementation=(outs[k][:6] if isinstance(outs[k], list) else
                                             dict(array=outs[k]["array"] if isinstance(outs[k]["array"], str)
                                                  else dict(outs[k]["array"], vals=outs[k]["array"]["vals"][:6])))))
@@ -578,7 +673,7 @@ def run(chk, args):
                         nbad += 1
                         g, o = groups[gi], outs[gi]
                         i = bad[0]
-                        inp = (g.get("xs") or g.get("vs") or g.get("wv"))[i]
+                        inp = inputs_of(g)[i]
                         if nbad <= 3:
                             chk.disagree("%s %s: model and implementation differ on input #%d = %r (%s); %d of %d inputs differ"
                                          % (label, desc(g), i, inp,
@@ -596,7 +691,8 @@ def run(chk, args):
         "straddling integers of the scaled line, uniform reals over 1.3x the range, random bit patterns, +-inf/NaN "
         "(outside the domain); arrays of 16 shape/layout kinds (0-d, Python and numpy scalars, empty, strided, "
         "transposed, Fortran order, up to 4-d); fixed-point integers incl. 2^53+-1 and the range ends for the way "
-        "back; a malformed-format stream. thorough tier: all n_frac in -4..70 for the numpy widths, 600 values per "
+        "back; float32 and float16 input arrays for every supported width (values exactly representable in the narrow "
+        "type, incl. its neighbours of both range ends and of the rounded clip bound; oracle only); a malformed-format stream. thorough tier: all n_frac in -4..70 for the numpy widths, 600 values per "
         "format, the model evaluated on every 4th format; exhaustive enumeration of every value of every 8-bit "
         "format (all n_frac; model + oracle) and of 16-bit formats (oracle) for the way back, scalar and array, and of "
         "all 256 words for fix_to_float. non-trivial = input inside the property's domain whose result is not "
